@@ -1,7 +1,7 @@
 // Run from the worktree root (/tmp/audit/C14):
 //
 //	export PATH=/opt/veriftools/go1.26.8/bin:$PATH GOTOOLCHAIN=local GOFLAGS=-mod=mod GOPROXY=off GOSUMDB=off
-//	go test ./AUDIT/demo/barrier_reparked/ -run TestBarrierReleasedByEndingWavefront -count=1
+//	go test ./c19demo/barrier_reparked/ -run TestBarrierReleasedByEndingWavefront -count=1
 //
 // Defect: SchedulerImpl.EvaluateInternalInst (amd/timing/cu/scheduler.go)
 // ranges over s.internalExecuting. When the wavefront it is evaluating releases
